@@ -112,6 +112,29 @@ impl Prop for C20 {
                     sense: if max { Sense::Max } else { Sense::Min },
                 }
             })
+            // the same LPs with the objective, or one row, in other units: a shadow price is a rate of
+            // change, so it scales with the objective and inversely with the row (powers of two keep
+            // the data exact)
+            .prop_flat_map(|c| (Just(c), 0u8..8, any::<u16>()))
+            .prop_map(|(mut c, mode, pick)| {
+                match mode {
+                    0 => c.obj.iter_mut().for_each(|v| *v *= 128.0),
+                    1 => c.obj.iter_mut().for_each(|v| *v *= 4096.0),
+                    2 => c.obj.iter_mut().for_each(|v| *v /= 64.0),
+                    3 if !c.rows.is_empty() => {
+                        let i = pick as usize % c.rows.len();
+                        c.rows[i].coef.iter_mut().for_each(|v| *v *= 256.0);
+                        c.rows[i].rhs *= 256.0;
+                    }
+                    4 if !c.rows.is_empty() => {
+                        let i = pick as usize % c.rows.len();
+                        c.rows[i].coef.iter_mut().for_each(|v| *v /= 32.0);
+                        c.rows[i].rhs /= 32.0;
+                    }
+                    _ => {}
+                }
+                c
+            })
             .boxed()
     }
     fn budget(&self, tier: Tier) -> usize {
@@ -124,7 +147,7 @@ impl Prop for C20 {
         serde_json::to_string(&c.pretty()).unwrap()
     }
     fn rule(&self) -> String {
-        "small continuous LPs (<=4 variables, <=5 rows, integer data, named and unnamed rows of all three relations, bounds as domains, min and max, offsets) kept when the exact oracle certifies that the optimal value is a differentiable function of every row's right-hand side at the given data (same exact slope for steps +-1/64 and +-1/256: the situation of a unique non-degenerate optimum). solve_real_lp_problem_clarabel and ModelBuilder::solve_with(Clarabel).shadow_price must report for every named row that exact slope d(optimal value)/d(rhs) in the user's sense (1e-5 relative), about zero for inactive rows, no entry for unnamed rows and an entry for every named row. Non-trivial = at least two named rows with non-zero slope. Distinct = distinct model text.".into()
+        "small continuous LPs (<=4 variables, <=5 rows, integer data, named and unnamed rows of all three relations, bounds as domains, min and max, offsets; objective or one row rescaled by a power of two in half of the cases) kept when the exact oracle certifies that the optimal value is a differentiable function of every row's right-hand side at the given data (same exact slope for steps +-1/64 and +-1/256: the situation of a unique non-degenerate optimum). solve_real_lp_problem_clarabel and ModelBuilder::solve_with(Clarabel).shadow_price must report for every named row that exact slope d(optimal value)/d(rhs) in the user's sense (1e-5 relative to the larger of the slope and the unit objective / row), about zero on that scale for inactive rows, no entry for unnamed rows and an entry for every named row. Non-trivial = at least two named rows with non-zero slope. Distinct = distinct model text.".into()
     }
     fn assumptions(&self) -> Vec<String> {
         vec!["cases whose value function has a kink at the data (degenerate or non-unique optimum) are skipped and counted".into()]
@@ -172,8 +195,13 @@ impl Prop for C20 {
             match got {
                 None => fails.push(("named-row-has-no-shadow-price".into(), ctx(format!("row {:?}", r.name)))),
                 Some(g) => {
-                    if (g - want).abs() > 1e-5 * want.abs().max(1.0) {
-                        let kind = if (g + want).abs() <= 1e-5 * want.abs().max(1.0) { "opposite-sign" } else { "value" };
+                    // a price has the unit objective / row: the interior-point residual of a row
+                    // that is not binding scales the same way, so "about zero" is measured against
+                    // the largest objective coefficient over the largest coefficient of the row
+                    let unit = case.obj.iter().fold(1.0f64, |m, v| m.max(v.abs())) / r.coef.iter().fold(0.0f64, |m, v| m.max(v.abs())).max(f64::MIN_POSITIVE).min(1.0);
+                    let allowed = 1e-5 * want.abs().max(unit).max(1.0);
+                    if (g - want).abs() > allowed {
+                        let kind = if (g + want).abs() <= allowed { "opposite-sign" } else { "value" };
                         fails.push((
                             format!("shadow-price-differs-from-sensitivity:{kind}:{:?}:{:?}", case.sense, r.rel),
                             ctx(format!("row {:?}: reported {g}, exact d(opt)/d(rhs) = {want}", r.name)),
